@@ -177,8 +177,16 @@ pub fn gen_view(size: usize) -> ViewSpec {
             1 => 0,
             _ => c.a(rem as u32 + 1) as usize,
         };
-        let kind = c.a(9) as u8;
+        let mut kind = c.a(9) as u8;
+        if v.steps.is_empty() && c.a(3) == 0 {
+            kind = 9; // the container's own VolatileMemory::get_slice (MmapRegion::get_slice for a region)
+        }
         match kind {
+            9 => {
+                v.steps.push((9, o, n));
+                v.off += o;
+                v.len = n;
+            }
             0 | 5 => {
                 v.steps.push((0, o, n)); // subslice / get_slice
                 v.off += o;
@@ -232,6 +240,7 @@ pub fn derive<BS: BitmapSlice>(base: VolatileSlice<'static, BS>, spec: &ViewSpec
             2 => s.split_at(o)?.0,
             3 => s.split_at(o)?.1,
             5 => s.subslice(o, n)?,
+            9 => s.get_slice(o, n).map(|x| unsafe { std::mem::transmute::<VolatileSlice<'_, BS>, VolatileSlice<'static, BS>>(x) })?,
             6 => {
                 let a = s.get_array_ref::<u32>(o, n)?;
                 // SAFETY: as below.
@@ -254,6 +263,19 @@ pub fn derive<BS: BitmapSlice>(base: VolatileSlice<'static, BS>, spec: &ViewSpec
         };
     }
     Ok(s)
+}
+
+/// like `derive`, but a leading container-level step goes through the region's own get_slice
+fn derive_from_container<BS: BitmapSlice>(c: &Cont<BS>, base: VolatileSlice<'static, BS>, spec: &ViewSpec) -> Result<VolatileSlice<'static, BS>, VErr> {
+    if let (Some(r), Some(&(9, o, n))) = (&c.region, spec.steps.first()) {
+        // resolves (through Deref) to `impl VolatileMemory for MmapRegion`
+        let first = r.get_slice(o, n)?;
+        // SAFETY: the region outlives the run; BS is () for region containers.
+        let first: VolatileSlice<'static, BS> = unsafe { std::mem::transmute_copy(&first) };
+        let rest = ViewSpec { steps: spec.steps[1..].to_vec(), off: spec.off, len: spec.len };
+        return derive(first, &rest);
+    }
+    derive(base, spec)
 }
 
 /// boundary-biased offset into a view of length `l`
@@ -537,7 +559,7 @@ impl Mem {
         let (voff, vlen) = (spec.off, spec.len);
         let abs = |o: usize| cbase + voff + o;
         let base_slice = conts[ci].slice();
-        let view = match derive(base_slice, spec) {
+        let view = match derive_from_container(&conts[ci], base_slice, spec) {
             Ok(v) => v,
             Err(e) => {
                 cx().violate("C04", "C04/derive", "valid derivation refused".into(), format!("step {}: derivation chain {:?} inside a {}-byte container failed: {:?}", step, spec.steps, conts[ci].size, e));
